@@ -183,7 +183,8 @@ PROPS["C13"] = {
                 "ws": {"1": "client WebSocket messages and request messages are not one-to-one (or not only the first for non-client-streaming methods)",
                        "2": "responses are not exactly one text frame each, in order",
                        "3": "wrong close code (1000 clean end, 1003 wrong frame type, 1001 other errors)",
-                       "4": "close reason does not carry the gRPC code"},
+                       "4": "close reason does not carry the gRPC code",
+                       "5": "the close reason is not \"code <Name>: <message>\" cut down to 123 bytes at a character boundary"},
                 "neg": {"1": "SSE admission / content type negotiation differs from the rules"}},
     "rule": "http: 0-4 response messages with strings containing quotes, newlines, U+2028/2029, non-BMP, CRLF, 'data:' and JSON text, response_body in {whole message, nested message, repeated field, map field, string, enum, int64} x {NDJSON, SSE}; the raw body is cut into records by the MODEL's splitter; ws: client flows of 0-3 text/binary frames on client-streaming / single-request (with and without body) methods, 0-3 responses, OK or error outcome, through a gorilla client; neg: SSE admission per streaming kind (shared with C10)",
     "level_text": "Coq theorems: for every list of LF-free payloads the NDJSON stream splits back into exactly those records (and SSE likewise for data: events); insignificant-whitespace stripping is idempotent; WebSocket request mapping: every text frame is one message in order for client-streaming methods, only the first otherwise, a frame of the wrong type ends the flow; close codes regenerated from the source equal 1000/1001/1003. That the JSON of a message contains no raw LF is the JSON encoder's property, checked on every record by the harness. Tied to the code through TranscodedHTTPBridge / TranscodedWebSocketBridge.",
